@@ -20,7 +20,15 @@ THEOREMS = [
      "text": "witness that the proviso cannot be dropped (a status no history reaches)"},
     {"name": "C04b_request_frame / C04b_status_request_exceptions", "strength": "F",
      "text": "a status request touches only statuses/log/errors; the only exceptions it raises"},
-    {"name": "(tested, not proved) late reports are absorbed without error",
+    {"name": "C04c_late_report_absorbed / C04c_task_event_when_done / C04c_request_to_fail_when_done / C04c_nothing_offered "
+             "(props/C04c.v)", "strength": "P",
+     "text": "LATE REPORTS: in a failed, canceled or succeeded workflow, a completion report for a still-active plain task "
+             "(no items, no engine-command targets) from a well-formed state returns normally, records the reported status, "
+             "leaves the workflow status unchanged (succeeded may become failed only when an expression of the task's "
+             "transitions fails; in canceled that same failure makes the handler's own fail request be refused -- the one "
+             "documented refusal that can escape, shown on a hand-made state), and nothing is offered as a consequence (the "
+             "targets are staged, never offered)"},
+    {"name": "(tested, not proved) late reports of with-items tasks and of tasks with engine-command targets",
      "strength": "T", "text": "monitor c04 on every generated history"},
 ]
 TRUSTED_BASE = common.TRUSTED_BASE_COMMON + [
